@@ -1,6 +1,8 @@
-(* C02 walk theorems, part 2: the specification beyond the core grammar (extends TextDeSpec.spec_value,
-   with which it coincides on the core grammar: Props/C02_walk2.v C02_spec2_core).  Definitions only.
+(* C02 walk theorems, part 2: the specification beyond the core grammar (extends TextDeSpec.spec_value;
+   that the two coincide wherever spec_value fits is NOT proved).  Definitions only.
 
+   (Where TextDeSpec.spec_value fits, this specification is meant to say the same; it additionally gives
+   meaning to `{}` / arrays where a map or struct is asked for, which spec_value calls UNFIT.)
    spec_value2 tp sh d     tp = true : what the TAPE path (from_*_slice / from_*_tape) yields;
                            tp = false: the part of it on which the STREAM path (from_*_reader) agrees;
                            whatever the flag says UNFIT about is outside the respective theorem.
